@@ -99,3 +99,27 @@ claim("C17",
       "predicate-shape and provenance check at both classification sites (anchored HasPrefix on a prefix from one shared constructor ending in '/'), guard dominance for age and primitive, call-graph non-reachability",
       "Decides that both the create path and the expiry scan classify Event keys by an anchored prefix test derived from the configured prefix through one constructor whose result ends with '/', that expiry deletes are guarded by revision <= timeout revision produced only from marks older than the TTL, that the index goes by compare-and-delete, that the scanner never emits events, and the native-TTL switch. Wall-clock ageing and native-TTL engines are not decided.",
       STATIC_NOTE, "DESIGN.md §3 C17")
+
+# ---- additions after the seeded rounds (DESIGN.md §7.5): appended to technique / text of the claims above ----
+EXTRA = {
+ "C01": ("; imported engine / wrapper rules", " Also imported: engines evaluate conditions atomically with the write and the metrics wrapper forwards conditional operations unchanged (C11-R1/R2/R5)."),
+ "C02": ("; imported hand-over and clamp rules", " Also: a new leader seeds its counters before admitting writes (C15-R1), the compaction revision never exceeds the committed revision (C09-R2), and the List scan bound and header come from the same read."),
+ "C03": ("", " Also imported: partition borders contiguous, retried attempts start empty, a failed partition fails the read (C13-R5/R6/R8)."),
+ "C04": ("; self-deadlock check", " Also: merged sink reports (phi of two writers), and no lock is re-acquired by the goroutine that holds it (C19-R5)."),
+ "C05": ("; aliasing rules for shared / handed-over batches", " Also: received event batches are read-only (R8) and a slice handed over a channel is never written again by the sender (R9)."),
+ "C06": ("", " Also imported: the listed state is the complete snapshot (C13-R5/R6/R8) and handed-over batches are not overwritten (C05-R9)."),
+ "C07": ("; user-key provenance of the failed-delete discipline", " Also: the key given to the skipped-key discipline is the record's decoded user key (also on expiry chains), the metrics wrapper forwards deletes and their errors (C11-R5), the compaction scan covers every record (C13-R5)."),
+ "C09": ("; error preservation on the write path; queue discipline", " Also: on the write path the error of a committing call is never replaced unless classified (R6), the repair queue's push/pop keep the FIFO intact (R7), the head entry survives a failed repair write (R3), and the client's compaction revision is clamped on every path (R2)."),
+ "C11": ("; written-value, snapshot-timestamp and oracle provenance", " Also: the value handed to the engine is the operation's new value, staged operations never commit or replace the engine transaction, an iterator reads at the caller's or the oracle's timestamp, the wrapper returns the wrapped call's error, the empty engine end border is guarded, the TiKV oracle is the fresh PD timestamp, memkv iterators hand out copies."),
+ "C12": ("", " Also imported: batch begin/commit discipline (C11-R2) and independence from the engine's partitioning (C13-R5)."),
+ "C13": ("; error preservation on the scan path", " Also: no error of the iterator, a worker or the retry loop is lost (R8); end borders are written back and adjusted before they are propagated (R5); the receiver's read revision is set only at construction / fork (R4)."),
+ "C15": ("; oracle error preservation", " Also: a failed oracle read fails the lock operation (R5) and the TiKV oracle is the fresh PD timestamp (R6)."),
+ "C16": ("", " Also: the failure-branch re-read names no revision, the Range answer is the complete snapshot (C13-R5/R6/R8), handed-over batches are not overwritten (C05-R9)."),
+ "C17": ("; TTL operand provenance", " Also: every TTL operand reaching an engine batch is 0 or the classified create's TTL, expiry deletes follow the failed-delete discipline with the user key (C07-R4), and the scanner reaches the event pipeline through no call chain."),
+ "C19": ("; escape-based confinement; verified singleflight confinement; self-deadlock", " Also: objects that never escape their goroutine need no table entry, the singleflight confinement of the syncer's scheme field is verified, and no mutex is re-acquired while held (R5)."),
+ "C20": ("; explicit aborts by reachability from request entry points; request-sized allocations; label-value sanitising", " Also: explicit aborts are judged by reachability from request entry points and role (no name table), diverging tag lists kept in fields are violations, no allocation is sized by an unbounded request integer (R5), label values reach prometheus only sanitised (R6), no self-deadlock (R7)."),
+}
+for _pid, (_t, _x) in EXTRA.items():
+    if _pid in CLAIMED:
+        CLAIMED[_pid]["technique"] += _t
+        CLAIMED[_pid]["text"] += _x
